@@ -81,8 +81,27 @@ def carries_user_tokens(T, toks, j, depth=0):
     if depth < 4:
         ct = T.callee_templates(tk)
         if ct is not None and ct is not T:
+            call = getattr(T, "_calls", {}).get(id(tk))
             for s2, toks2 in ct.by_stream.items():
                 for k, t2 in enumerate(toks2):
+                    if t2.kind == "interp" and t2.src is not None and 1 <= t2.src <= ct.b.arg_count and call is not None and call[0] is T and t2.src - 1 < len(call[1]["args"]):
+                        # a parameter of the helper: what the caller passes for it decides
+                        a_ = call[1]["args"][t2.src - 1]
+                        if a_["k"] not in ("copy", "move"):
+                            continue                      # a constant (`"enum"`)
+                        root = tpl.ref_root(T.b, a_)
+                        alts = T.stream_alts(root) if root is not None else []
+                        if alts and all(x > T.b.arg_count for x in alts):
+                            # a template of the caller: user tokens only if it interpolates some
+                            inner_user = False
+                            for x in alts:
+                                tx = T.by_stream.get(x, [])
+                                for kk, t3 in enumerate(tx):
+                                    if t3.kind in ("interp", "append") and not (t3.kind == "interp" and T.stream_alts(t3.src)) and carries_user_tokens(T, tx, kk, depth + 1):
+                                        inner_user = True
+                            if inner_user:
+                                return True
+                            continue
                     if t2.kind in ("interp", "append") and not (t2.kind == "interp" and ct.stream_alts(t2.src)) and carries_user_tokens(ct, toks2, k, depth + 1):
                         return True
             return False
